@@ -165,6 +165,13 @@ def work(p):
         empf = gm.FuncSpec(66, "empties_family", [], "module", "plain")
         empf.params = [gm.Param("s", "normal", vals=["set()", "{1}", "{'ea': 1, 'eb': 's'}", "[1, 's']"]), gm.Param("l", "normal", vals=["[]", "[1]", "({1: 1, 2: 's'},)", "{'k': [1, None]}"])]
         empf.ret_vals = ["{}", "{1: 2}", "[{'ec': 1}]", "[{'ec': 's'}]"]
+        # classes of one NAME from two modules, met by two functions (and at one position): which import the stub ends up with must not
+        # depend on which function's rows come first (the clash itself is C11's listed finding; its outcome has to be stable)
+        H2 = "__import__('vf.fixtures.hier2', fromlist=['A'])"
+        samef = [gm.FuncSpec(64, "same_name_a", [], "module", "plain"), gm.FuncSpec(65, "same_name_b", [], "module", "plain")]
+        samef[0].params = [gm.Param("v", "normal", vals=["A()"])]
+        samef[1].params = [gm.Param("v", "normal", vals=[H2 + ".A()"])]
+        samef[0].ret_vals, samef[1].ret_vals = ["1"], ["1"]
         abcf = gm.FuncSpec(96, "abc_family", [], "module", "plain")
         abcf.params = [gm.Param("h", "normal", vals=["AH1()", "AH2()", "AH3()", "AH4()", "AH5()", "AH6()"])]
         abcf.ret_vals = ["AH2()", "AH1()", "AH4()", "AH3()", "AH6()", "AH5()"]
@@ -204,7 +211,7 @@ def work(p):
         ovf.params = [gm.Param("rows", "normal", vals=["[{'q': 1}, {'r': 2.5}]", "[{'r': 'x', 's': 1}]", "[{'t': None, 'u': b'x'}]", "[{'q': 1, 'v': A()}]",
                                                          "[{'q': 1, 'w': (1,)}, {'q': 2}]"])]
         ovf.ret_vals = ["[{'ra': 1}, {'rb': 2.5}]", "[{'rc': 'x', 'rd': 1}, {'re': None}]", "[{'rf': b'x'}]"]
-        extra = [fam, tdf, tup, abcf, subf, empf] + dds + [hist, yf, recf, cfgf] + owns + [ovf]
+        extra = [fam, tdf, tup, abcf, subf, empf] + samef + dds + [hist, yf, recf, cfgf] + owns + [ovf]
         nfixed = len(extra)
         if spec.get("collide"):
             # pinned witness of the listed finding: two functions share a parameter name and get differently shaped dicts
@@ -223,7 +230,7 @@ def work(p):
             res.violation("harness:module-does-not-import", repr(e), {"source": m.source})
             continue
         k = spec["k"]
-        plan = m.call_plan(rng, None, ncalls=(4, 12)) + [(fam, [v], {}) for v in fam.params[0].vals] + [(tdf, [v, w], {}) for v, w in zip(tdf.params[0].vals, tdf.params[1].vals)] + [(tup, [v], {}) for v in tup.params[0].vals] + [(abcf, [v], {}) for v in abcf.params[0].vals] + [(subf, [v, w], {}) for v, w in zip(subf.params[0].vals, subf.params[1].vals)] + [(empf, [v, w], {}) for v, w in zip(empf.params[0].vals, empf.params[1].vals)]
+        plan = m.call_plan(rng, None, ncalls=(4, 12)) + [(fam, [v], {}) for v in fam.params[0].vals] + [(tdf, [v, w], {}) for v, w in zip(tdf.params[0].vals, tdf.params[1].vals)] + [(tup, [v], {}) for v in tup.params[0].vals] + [(abcf, [v], {}) for v in abcf.params[0].vals] + [(subf, [v, w], {}) for v, w in zip(subf.params[0].vals, subf.params[1].vals)] + [(empf, [v, w], {}) for v, w in zip(empf.params[0].vals, empf.params[1].vals)] + [(f, [f.params[0].vals[0]], {}) for f in samef]
         plan += [(f, [v], {}) for f in dds for v in f.params[0].vals] + [(hist, [v, w], {}) for v in hist.params[0].vals for w in hist.params[1].vals]
         plan += [(f, [f.params[0].vals[0]], {}) for f in extra[nfixed:]] + [(yf, ["1"], {})] * 3
         plan += [(cfgf, [v, w], {}) for v, w in zip(cfgf.params[0].vals, cfgf.params[1].vals)]
